@@ -1,6 +1,7 @@
 package main
 
 import (
+	"bytes"
 	"fmt"
 	"math/big"
 	"sort"
@@ -402,6 +403,14 @@ func c12(r *engine.Run) {
 					}
 					if ch == nil && !owners[co.Address] {
 						fail("automatic-change-address-not-an-input-owner", "change sent to %s which owns none of the spent outputs", co.Address)
+					} else if ch == nil {
+						// documented on Create: "the address whose bytes are lexically sorted first is chosen from the owners of the outputs being spent"
+						for o := range owners {
+							if bytes.Compare(o.Bytes(), co.Address.Bytes()) < 0 {
+								fail("automatic-change-address-not-the-lexically-first-owner", "change sent to %s although %s, which sorts before it, owns a spent output too", co.Address, o)
+								break
+							}
+						}
 					}
 				}
 				// 5. hours: nothing created, required fee burned
@@ -557,6 +566,9 @@ func c12(r *engine.Run) {
 		}
 	}
 
+	// ---- automatic change address: every assignment of k owners to k spent outputs ------------------------------------------
+	autoChange := c12AutoChange(r, outcomes)
+
 	// ---- vacuity -----------------------------------------------------------------------------------------------------------
 	hist := outcomes.Map()
 	for _, k := range []string{"created", "error:balance is not sufficient", "error:hours are not sufficient", "error:Transaction has zero coinhour fee", "choose:chosen", "choose:error", "distribute:ok"} {
@@ -576,7 +588,7 @@ func c12(r *engine.Run) {
 	r.Assumptions = append(r.Assumptions,
 		"offered outputs: typed alphabet of 6 (quick) / 8 (thorough) outputs, every non-empty subset of at most 3 / 4; totals far below 2^63 (larger totals cannot occur with a conserved supply)",
 		"user burn factor set through params.UserVerifyTxn.BurnFactor (the variable USER_BURN_FACTOR initialises) to 10, 2 and 3 in turn",
-		"automatic change address: only required to be an owner of a spent output; the allotted amount of automatic hours may be the share of the remaining hours of the final inputs, of the inputs before a change-carrying extra input, or 100 % when no change output exists (the three cases the documentation of Create describes)",
+		"automatic change address: the owner of a spent output whose address bytes sort first (the rule documented on Create); the allotted amount of automatic hours may be the share of the remaining hours of the final inputs, of the inputs before a change-carrying extra input, or 100 % when no change output exists (the three cases the documentation of Create describes)",
 		"Visor.CreateTransaction / the API layer on top of transaction.Create are not driven here")
 	var samples []interface{}
 	for _, v := range []*atomic.Value{&sampleOK, &sampleErr, &sampleH3} {
@@ -594,6 +606,77 @@ func c12(r *engine.Run) {
 		"outcome_histogram":   hist,
 		"alphabet": map[string]interface{}{"offered_subsets": len(subsets), "requests": len(requests), "change_addresses": len(changes), "burn_factors": 3,
 			"destination_lists": len(dlists), "manual_hours": manualHours, "share_factors": []string{"0", "0.5", "1", "0.3333"}},
-		"samples": samples,
+		"samples":                  samples,
+		"automatic_change_address": autoChange,
 	})
+}
+
+// c12AutoChange: k = 2..5 outputs of equal coins (distinct hours, so that the selection order is fixed), all of which the
+// request needs, owned by k distinct addresses in EVERY assignment (k! permutations) - so every arrangement of "rank of the
+// owner" over the order in which the outputs are chosen occurs - and also with two outputs sharing an owner.  No change address
+// is given: the change must go to the owner whose address bytes sort first.
+func c12AutoChange(r *engine.Run, outcomes *engine.Counter) map[string]interface{} {
+	addrs := make([]cipher.Address, 5)
+	for i := range addrs {
+		addrs[i] = fixKeys[i].Addr
+	}
+	sort.Slice(addrs, func(i, j int) bool { return bytes.Compare(addrs[i].Bytes(), addrs[j].Bytes()) < 0 })
+	dest := fixKeys[6].Addr
+	evals, assignments := 0, 0
+	kmax := r.Pick(4, 5)
+	for k := 2; k <= kmax; k++ {
+		// all functions {outputs} -> {owner ranks 0..k-1} (k^k): permutations and shared owners alike
+		total := 1
+		for i := 0; i < k; i++ {
+			total *= k
+		}
+		for code := 0; code < total; code++ {
+			assign := make([]int, k)
+			c := code
+			for i := range assign {
+				assign[i] = c % k
+				c /= k
+			}
+			assignments++
+			var uxa coin.UxArray
+			least := k
+			for i, rk := range assign {
+				uxa = append(uxa, coin.UxOut{Head: coin.UxHead{Time: c12Head - 3600, BkSeq: uint64(2 + i)},
+					Body: coin.UxBody{SrcTransaction: cipher.SHA256(h32(fmt.Sprintf("c12-auto-%d", i))), Address: addrs[rk], Coins: 1e6, Hours: uint64(100 * (i + 1))}})
+				if rk < least {
+					least = rk
+				}
+			}
+			for _, mode := range []string{"manual", "auto"} {
+				p := transaction.Params{To: []coin.TransactionOutput{{Address: dest, Coins: uint64(k)*1e6 - 5e5}}, HoursSelection: transaction.HoursSelection{Type: transaction.HoursSelectionTypeManual}}
+				if mode == "auto" {
+					sf := decimal.RequireFromString("0.5")
+					p.HoursSelection = transaction.HoursSelection{Type: transaction.HoursSelectionTypeAuto, Mode: transaction.HoursSelectionModeShare, ShareFactor: &sf}
+				}
+				var txn *coin.Transaction
+				var err error
+				cs := map[string]interface{}{"part": "automatic change address", "owner_rank_of_each_output": assign, "hours_selection": mode}
+				if pan, msg := engine.Catch(func() { txn, _, err = transaction.Create(p, coin.NewAddressUxOuts(uxa), c12Head) }); pan {
+					r.Failf("transaction.Create:panic", cs, "owners %v: panic: %s", assign, msg)
+					continue
+				}
+				evals++
+				if err != nil {
+					r.Failf("transaction.Create:lack-of-funds-error-although-coverable:auto-change", cs, "owners %v: all %d outputs cover the request, Create fails: %v", assign, k, err)
+					continue
+				}
+				if len(txn.In) != k || len(txn.Out) != 2 {
+					r.Failf("transaction.Create:auto-change:unexpected-shape", cs, "owners %v: %d inputs, %d outputs (expected %d and 2)", assign, len(txn.In), len(txn.Out), k)
+					continue
+				}
+				outcomes.Add("auto-change:created")
+				if got := txn.Out[1].Address; got != addrs[least] {
+					r.Failf("transaction.Create:automatic-change-address-not-the-lexically-first-owner", cs,
+						"outputs owned by the addresses of rank %v (by address bytes), all spent, no change address requested: change sent to %s, the lexically first owner is %s", assign, got, addrs[least])
+				}
+			}
+		}
+	}
+	return map[string]interface{}{"what": "every assignment of owners (k^k, k = 2.." + fmt.Sprint(kmax) + ") to k spent outputs × hours selection, no change address given: change goes to the owner whose address bytes sort first",
+		"assignments": assignments, "evaluations": evals}
 }
